@@ -647,6 +647,32 @@ class UnselectDF(_DF):
 
 
 @register
+class UnselectDF1(_DF):
+    """unselect(a) with ONE name: every other column (names compared for equality, never for containment), original order"""
+    qualname, prop, variant = "DataFrame.unselect", "C09", "one column"
+
+    def setup(self, cx):
+        self_ = sym_frame(cx, "self")
+        return {"self": self_, "args": ["k1"]}
+
+    def ensures(self, cx, result):
+        ctx = cx.ctx
+        self_ = cx.inputs["self"]
+        sym = self_.sym
+        cx.prove("result-is-DataFrame", is_frame(result))
+        k1 = M.to_v(cx.it, "k1")
+        keep = lambda c: sym["name_at"](c) != k1
+        e = Enum.of(ctx, sym["ncol"], keep)
+        n, name_at, col_at = flat(cx, result)
+        c = ctx.fresh("c", INT)
+        cx.prove("number-of-columns", zint(n) == e.cnt)
+        ctx.assume(in_range(c, e.cnt))
+        cx.prove("names-in-original-order", name_at(c) == sym["name_at"](e.idx(c)))
+        col_same(cx, col_at(c), self_, e.idx(c), "kept column")
+        common_frame_clauses(cx, result, self_)
+
+
+@register
 class UpdateDF(_DF):
     """update(other): receiver's columns not in other (original order), then all of other's columns"""
     qualname, prop = "DataFrame.update", "C09"
@@ -1948,3 +1974,9 @@ _bounded_only("C06", "dataiter/vector.py::Vector[every public non-in-place metho
 
 _bounded_only("C05", "dataiter/data_frame.py::DataFrame.full_join[mixed key list: a plain name before a (left, right) pair]",
               "full_join is a composite outside the deductive contracts; this driver covers its key-renaming loop")
+
+_bounded_only("C09", "dataiter/data_frame.py::DataFrame.update[mappings with scalars, lists and columns of any length]",
+              "update with plain mappings (scalars / length-1 / wrong-length values): broadcast to the receiver's row count or ValueError")
+_bounded_only("C01", "dataiter/data_frame.py::DataFrame.update[mappings with scalars, lists and columns of any length]",
+              "update with plain mappings (scalars / length-1 / wrong-length values): broadcast to the receiver's row count or ValueError")
+_bounded_only("C09", "dataiter/data_frame.py::DataFrame.unselect[names containing one another]", "a name that is a substring of / contains other column names")
